@@ -3,7 +3,7 @@
 RefGraph: TLC enumerates every canonical reference graph x traversal, deciding for the as-coded machine (cycle guards the
 code has today = all guards minus the Dev switches carried by known findings) whether the traversal ends within the
 bound, and checking the Bound invariant on the intended machine (all guards) for every graph.  Every emitted (graph,
-traversal) pair - thorough: all of the 3-node space and a seeded sample of the larger ones; quick: a seeded sample - is
+traversal) pair of the small spaces, and a seeded sample (diverging and ending pairs in equal parts) of the larger ones, is
 realised as a PDF document and driven through the extraction entry points (direct API for the traversals no entry point
 reaches: outlines and name trees, reported as notes only) under the work meter.
 
@@ -287,7 +287,9 @@ def _xref_chain_doc(nodes):
             for j, t in enumerate(v["out"][:2]):
                 where = (prev_pos.get(t, 0) if t else prev_size + 1000) if rnd else 0
                 tr.append(b"/%s %010d" % (keys[j], where))
-            out += b"trailer\n<<" + b" ".join(tr) + b">>\n"
+            # (every section ends like a revision does: the trailer dictionary is only complete for the parser when
+            # the startxref keyword follows it)
+            out += b"trailer\n<<" + b" ".join(tr) + b">>\nstartxref\n%d\n%%%%EOF\n" % pos[i]
         out += b"startxref\n%d\n%%%%EOF\n" % pos[1]
         prev_pos, prev_size = pos, len(out)
     return bytes(out)
@@ -341,7 +343,7 @@ def _graph_work(chunk):
 
 def refgraph_cfg(ck, name, n, maxout, travs, guards, invariants=(), emit=True):
     return write_cfg(os.path.join(ck.tmp, name),
-                     constants={"N": n, "MaxOut": maxout, "Travs": tla_set(travs), "Guards": tla_set(guards), "C": 4},
+                     constants={"N": n, "MaxOut": maxout, "Travs": tla_set(travs), "Guards": tla_set(guards), "C": 6},
                      invariants=list(invariants), constraints=["Emit"] if emit else [])
 
 
@@ -376,19 +378,18 @@ def run_refgraph(ck):
         res = run_tlc(spec, refgraph_cfg(ck, "rg_cod_%d_%d.cfg" % (n, maxout), n, maxout, travs, coded_guards),
                       emit=emit, timeout=3000)
         ck.add_tlc(res, "RefGraph.tla as coded (guards %s) %s" % (",".join(coded_guards), tag))
-        rows = [json.loads(line) for line in open(emit)]
-        os.remove(emit)
+        rows = sorted((json.loads(line) for line in open(emit)), key=lambda r: json.dumps(r, sort_keys=True))
+        os.remove(emit)       # (sorted: TLC's workers print in no particular order, the seeded sample must not depend on it)
         if not rows:
             raise MachineryError("RefGraph.tla emitted nothing for %s" % tag)
         for r in rows:
             tlc_verdicts[(tag, r["trav"], r["status"])] = tlc_verdicts.get((tag, r["trav"], r["status"]), 0) + 1
         diverging = [r for r in rows if r["status"] in ("hang", "recursion")]
         ending = [r for r in rows if r["status"] not in ("hang", "recursion")]
-        if thorough and (n, maxout) == (3, 2):
-            pick = rows
-        else:
-            k = 900 if thorough else 260
-            pick = rng.sample(diverging, min(len(diverging), k)) + rng.sample(ending, min(len(ending), k))
+        k = (4000 if (n, maxout) == (3, 2) else 900) if thorough else 260
+        pick = rng.sample(diverging, min(len(diverging), k)) + rng.sample(ending, min(len(ending), k))
+        ck.extra.setdefault("refgraph_spaces", {})[tag] = {"pairs": len(rows), "diverging_as_coded": len(diverging),
+                                                           "replayed": len(pick)}
         todo.extend(pick)
     # (c) TLC finds the non-terminating ones as violated Bound invariants of the as-coded machine
     if len(coded_guards) < len(ALL_TRAVS):
